@@ -104,6 +104,30 @@ fn run_wmeter(args: &[&str]) -> String {
     format!("{res} | heap={peak} read={} maxreq={}", m.read, m.maxreq)
 }
 
+/// `wmeterrep <reader> <allow> <prefix hex> <unit hex> <count> <suffix hex>`: as `wmeter` on the dense input prefix ++ unit x count ++ suffix
+/// (files made of very many chunks - animation frames, unknown trailing chunks - without a case line of that size)
+fn run_wmeterrep(args: &[&str]) -> String {
+    let (rd, allow) = (args[0], args[1]);
+    let un = |h: &str| if h == "-" { vec![] } else { common::unhex(h) };
+    let (pre, unit, count, suf) = (un(args[2]), un(args[3]), args[4].parse::<usize>().unwrap(), un(args[5]));
+    let mut data = Vec::with_capacity(pre.len() + unit.len() * count + suf.len());
+    data.extend_from_slice(&pre);
+    for _ in 0..count {
+        data.extend_from_slice(&unit);
+    }
+    data.extend_from_slice(&suf);
+    let len = data.len() as u64;
+    let sp = Sparse::new(len, vec![(0, data)], rd == "strict");
+    let cfg = Config::builder().allow_unknown_chunks(allow == "1").build();
+    let mut m = Meter { inner: sp, read: 0, maxreq: 0 };
+    let base = CUR.load(Ordering::Relaxed);
+    PEAK.store(base, Ordering::Relaxed);
+    let r = webpsan::sanitize_with_config(&mut m, cfg);
+    let peak = PEAK.load(Ordering::Relaxed).saturating_sub(base);
+    let res = show(r);
+    format!("{res} | heap={peak} read={} maxreq={}", m.read, m.maxreq)
+}
+
 pub fn show_err(e: Error) -> String {
     match e {
         Error::Io(e) => format!("err io {}", io_kind(e.kind())),
@@ -233,6 +257,7 @@ fn main() {
         "webp" => run_webp(args),
         "lossless" => run_lossless(args),
         "wmeter" => run_wmeter(args),
+        "wmeterrep" => run_wmeterrep(args),
         "sizes" => format!(
             "entry_u8={} entry_u16={} entry_u32={}",
             std::mem::size_of::<bitstream_io::huffman::ReadHuffmanTree<LE, u8>>(),
